@@ -112,7 +112,7 @@ Qed.
 
 (* the code as it is: a depthwise layer that prunes channels of its own (own selector, or network-input group)
    does not lower what a conv consumer is shown; the intended (mask) propagation does *)
-Definition pc_lay (th : list (list Q)) : lay := mkLay [3; 3; 4; 4] [8] [1] [0; 8] true [] th (Some 0%nat).
+Definition pc_lay (th : list (list Q)) : lay := mkLay [3; 3; 4; 4] [8] [1] [0; 8] true [] th (Some 0%nat) false.
 Theorem net_pruning_behind_depthwise_refuted : exists net lays lays' dw c s,
   wf net = true /\ nth_error net dw = Some (NDw s c) /\
   own_out net lays' dw < own_out net lays dw /\
@@ -265,3 +265,12 @@ Proof.
     by (try assumption; intros; rewrite entry_ops; ring).
   destruct t; unfold macs_of; field; exact HC'.
 Qed.
+
+(* ------------------------------------------------------------------ modules invoked more than once *)
+Theorem net_cost_per_invocation : forall net lays cf intended,
+  mps_net_cost_sh net lays false cf intended = mps_net_cost net lays cf intended.
+Proof. intros. reflexivity. Qed.
+Theorem net_cost_shared_no_reuse : forall net lays cf intended shared,
+  (forall i, l_reuse (lay_at lays i) = false) ->
+  mps_net_cost_sh net lays shared cf intended == mps_net_cost net lays cf intended.
+Proof. intros. unfold mps_net_cost_sh, mps_net_cost. apply qsum_map_ext. intros i. rewrite H, andb_false_r. reflexivity. Qed.
